@@ -68,15 +68,18 @@ def run_interp(dl, facts_dir, out_dir, jobs=None, extra=(), timeout=60, env=None
     return rc, so, se
 
 
-_pch_ready = {}
+def cxx_kind():
+    """Compiler for generated code: clang++ (default: ~2x faster at -O0 with its pch) or g++ (VERIF_CXX=g++)."""
+    return os.environ.get("VERIF_CXX", "clang++")
 
 
 def ensure_pch():
     """Precompiled header for souffle/CompiledSouffle.h built from the working tree's headers.
     Rebuilt whenever any header under src/include is newer than the pch."""
-    pch_dir = os.path.join(VBUILD, "pch")
+    cxx = cxx_kind()
+    pch_dir = os.path.join(VBUILD, "pch-" + cxx.replace("+", "x"))
     hdr = os.path.join(pch_dir, "vpch.h")
-    gch = hdr + ".gch"
+    gch = hdr + (".gch" if cxx == "g++" else ".pch")
     with Lock("pch"):
         newest = 0
         for root, _, files in os.walk(INCLUDE):
@@ -90,20 +93,51 @@ def ensure_pch():
         os.makedirs(pch_dir, exist_ok=True)
         with open(hdr, "w") as f:
             f.write('#include "souffle/CompiledSouffle.h"\n#include "souffle/SignalHandler.h"\n#include "souffle/SouffleInterface.h"\n#include "souffle/datastructure/BTreeDelete.h"\n#include "souffle/io/IOSystem.h"\n#include <any>\n')
-        r = subprocess.run([CXX, *CXXFLAGS, "-x", "c++-header", hdr, "-o", gch],
+        r = subprocess.run([cxx, *CXXFLAGS, "-x", "c++-header", hdr, "-o", gch],
                            stdout=subprocess.PIPE, stderr=subprocess.STDOUT, text=True)
         if r.returncode != 0:
             raise CheckError("pch build failed:\n" + r.stdout[-3000:])
     return hdr
 
 
+def pch_flags():
+    hdr = ensure_pch()
+    if cxx_kind() == "g++":
+        return ["-include", hdr]
+    return ["-include-pch", hdr + ".pch"]
+
+
 def compile_cpp(cpp_files, exe, extra_flags=(), use_pch=True, timeout=1800):
-    cmd = [CXX, *CXXFLAGS]
+    cmd = [cxx_kind(), *CXXFLAGS]
     if use_pch:
-        hdr = ensure_pch()
-        cmd += ["-include", hdr]
+        cmd += pch_flags()
     cmd += list(extra_flags) + list(cpp_files) + ["-o", exe] + LDFLAGS
     rc, so, se = sh(cmd, timeout=timeout)
+    return rc, so + se
+
+
+def _cc_one(args):
+    cmd, = args
+    rc, so, se = sh(cmd, timeout=1800)
+    return rc, so + se
+
+
+def compile_many(cpp_files, exe, extra_flags=(), jobs=None):
+    """Compile translation units separately (in parallel, with the pch) and link."""
+    from concurrent.futures import ThreadPoolExecutor
+    pf = pch_flags()
+    objs = []
+    cmds = []
+    for f in cpp_files:
+        o = f[:-4] + ".o"
+        objs.append(o)
+        cmds.append(([cxx_kind(), *CXXFLAGS, *pf, *extra_flags, "-c", f, "-o", o],))
+    with ThreadPoolExecutor(max_workers=jobs or NCPU) as ex:
+        res = list(ex.map(_cc_one, cmds))
+    for rc, out in res:
+        if rc != 0:
+            return rc, out
+    rc, so, se = sh([cxx_kind(), "-fopenmp", *objs, "-o", exe, *LDFLAGS], timeout=1800)
     return rc, so + se
 
 
@@ -128,7 +162,7 @@ def build_compiled(dl, workdir, name="prog", extra=(), multi=False, cxx_extra=()
         if rc != 0:
             raise GenError("souffle -G failed rc=%s: %s" % (rc, se[-2000:]))
         files = sorted(glob.glob(os.path.join(d, "*.cpp")))
-        rc, out = compile_cpp(files, exe, ["-I" + d, *cxx_extra], use_pch=False)
+        rc, out = compile_many(files, exe, ["-I" + d, *cxx_extra])
     else:
         cpp = os.path.join(workdir, name + ".cpp")
         rc, so, se = generate_cpp(dl, cpp, extra, souffle_bin=souffle_bin)
